@@ -14,10 +14,10 @@ T = {
     'pod12': 'sim::Pod<12>', 'pod5': 'sim::Pod<5>',
     'trk9': 'sim::Tracked<9>', 'trk12': 'sim::Tracked<12>', 'trk24': 'sim::Tracked<24>',
     'mo9': 'sim::TrackedMO<9>', 'mo12': 'sim::TrackedMO<12>',
-    'str': 'std::string', 'up': 'std::unique_ptr<int>',
+    'str': 'std::string', 'up': 'std::unique_ptr<int>', 'pr': 'std::pair<std::uint32_t, std::uint32_t>',
 }
 SIZEOF = {'u8': 1, 'u16': 2, 'u32': 4, 'u64': 8, 'i32': 4, 'ch': 1, 'by': 1, 'f32': 4, 'f64': 8, 'ptr': 8, 'sz': 8,
-          'pod12': 12, 'pod5': 5, 'trk9': 9, 'trk12': 12, 'trk24': 24, 'mo9': 9, 'mo12': 12, 'str': 32, 'up': 8}
+          'pod12': 12, 'pod5': 5, 'trk9': 9, 'trk12': 12, 'trk24': 24, 'mo9': 9, 'mo12': 12, 'str': 32, 'up': 8, 'pr': 8}
 INTEGRAL = {'u8', 'u16', 'u32', 'u64', 'sz'}
 NONTRIVIAL = {'trk9', 'trk12', 'trk24', 'mo9', 'mo12', 'str', 'up'}
 TRACKED = {'trk9', 'trk12', 'trk24', 'mo9', 'mo12'}
@@ -129,11 +129,19 @@ def curated():
     a(make('mix_fv', [P('f', 'f32'), P('p', 'u32'), P('p', 'sz', 8), P('v', 'f32')], 'none'))
     a(make('mix_fixal_var', [P('f', 'f32', 16), P('p', 'u32'), P('p', 'sz', 8), P('v', 'f32', 8)], 'alld'))
     a(make('mix_bytes', [P('f', 'u8'), P('p', 'u8'), P('v', 'by'), P('p', 'u8')], 'none'))
+    a(make('mix_packed16', [P('f', 'u16'), P('p', 'u16'), P('v', 'u16')], 'ae'))
+    a(make('mix_packed_vf', [P('p', 'u8'), P('v', 'u8'), P('f', 'u8'), P('f', 'u16')], 'none'))
     # realistic non-trivial value types (ASan is the lifetime oracle there)
     a(make('str_fx', [P('f', 'str'), P('p', 'str')], 'ae'))
     a(make('str_var', [P('p', 'sz', 8), P('v', 'str'), P('p', 'str')], 'none'))
     a(make('up_fx', [P('f', 'up'), P('p', 'up')], 'ae'))
     a(make('up_var', [P('p', 'sz', 8), P('v', 'up'), P('p', 'up')], 'none'))
+    # no trivially copyable parameter at all: trivially constructible but not trivially copyable (std::pair) next to
+    # non-trivial ones
+    a(make('pr_fx_trk', [P('f', 'pr'), P('p', 'trk9')], 'none'))
+    a(make('pr_str', [P('p', 'pr'), P('f', 'str')], 'ae'))
+    a(make('pr_var_trk', [P('p', 'u32'), P('v', 'pr'), P('p', 'trk12'), P('p', 'pr')], 'noned'))
+    a(make('pr_only', [P('f', 'pr', 8), P('p', 'pr')], 'all'))
     # layout family: a packed plain parameter at an odd offset followed by an aligned one (compile-time trailing
     # alignment reasoning); only used by the layout properties C02-C05
     for t2 in ('u16', 'u32', 'u64'):
@@ -166,7 +174,7 @@ def generated(seed, n):
         params = []
         family = r.below(4)  # 0 trivial ints, 1 trivial mixed, 2 tracked, 3 move-only
         pool = {0: ['u8', 'u16', 'u32', 'u64', 'by', 'ch'], 1: ['u8', 'u32', 'f32', 'f64', 'pod12', 'pod5', 'i32', 'ptr'],
-                2: ['trk9', 'trk12', 'trk24', 'u16', 'u8', 'f32'], 3: ['mo9', 'mo12', 'u32', 'u8']}[family]
+                2: ['trk9', 'trk12', 'trk24', 'u16', 'u8', 'f32', 'pr'], 3: ['mo9', 'mo12', 'u32', 'u8', 'pr']}[family]
         k = 0
         while k < length:
             kind = ['p', 'p', 'f', 'v'][r.below(4)]
